@@ -254,6 +254,58 @@ def run(ck):
             if len(ck.violations) >= 3:
                 break
     asmk.k_check(ck, progs, impl, mod, icases, syms=True)
+    # the same histories with a stretch of their lines moved into an included file, or into the body of a macro that is
+    # invoked at that place: inclusion and expansion are textual, so the outcome is the abstract machine's all the same
+    # (pending uses are settled when assembly ends, not when a file ends; a probe in a macro body is answered when the
+    # macro is expanded, not when it is recorded)
+    vcases, vmeta = [], []
+    def moved(t, e, i, j, include):
+        lines = t.rstrip("\n").split("\n")
+        body = lines[2:]                      # after `@org` and `sc1:`
+        part = body[i:j]
+        if include:
+            main = lines[:2] + body[:i] + ['@include "part.inc"'] + body[j:]
+            files = {"/w/main.asm": "\n".join(main) + "\n", "/w/part.inc": "\n".join(part) + "\n"}
+            how = "an included file"
+        else:
+            main = lines[:2] + body[:i] + ["@macro hm1, 0"] + part + ["@endmacro", "hm1"] + body[j:]
+            files = {"/w/main.asm": "\n".join(main) + "\n"}
+            how = "a macro body"
+        vcases.append(asm_case("z80", files=files)); vmeta.append((files, e, how))
+    def cuts_of(t):
+        body = t.rstrip("\n").split("\n")[2:]
+        # whole statements only: a struct declaration spans lines
+        return [k for k in range(len(body) + 1) if not (0 < k < len(body) and (body[k].startswith("  ") or body[k] == "@endstruct"))]
+    # a small family in full: use before definition, definition, then a replacement or removal -- every stretch, both ways
+    fam = []
+    for g in ("gg1", ".ll1"):
+        for d1 in ("defn", "defl", "label"):
+            for tail in ([("redefn", g, 2)], [("redefl", g, 3)], [("undef", g, None), ("defn", g, 4)], [("undef", g, None), ("label", g, None)]):
+                fam.append([("usefwd", g, None), ("isdef", g, None), (d1, g, None if d1 == "label" else 1), ("isdef", g, None), ("use", g, None)] + tail + [("use", g, None), ("isdef", g, None)])
+    for h in fam:
+        t, e = run_history(h)
+        cs = cuts_of(t)
+        for i in cs:
+            for j in cs:
+                if i < j:
+                    moved(t, e, i, j, True); moved(t, e, i, j, False)
+    for (arch, t), e in zip(progs, expect):
+        if t.count("\n") < 4 or rng.random() > (0.6 if thorough else 0.35):
+            continue
+        cs = cuts_of(t)
+        i, j = sorted(rng.sample(cs, 2)) if len(cs) >= 2 else (0, 0)
+        if i == j:
+            continue
+        moved(t, e, i, j, rng.random() < 0.5)
+    vres = [AsmResult(r) for r in run_cases(harness, vcases)]
+    ck.evaluations += len(vcases)
+    for (files, e, how), a, c in zip(vmeta, vres, vcases):
+        ck.count("moved:%s:%s" % (how.split()[-1], "DIAG" if e == "DIAG" else "OK"))
+        if a.canon() != e:
+            ck.violation("history with lines moved into %s %r: implementation %s, abstract machine %s" % (
+                how, files, a.canon() + ((" " + (a.msg or "").replace("\n", " ")[-80:]) if not a.ok else ""), e),
+                {"mode": "asm", "arch": "z80", "files": files, "harness_case": c, "expected": e})
+            break
     # the known case: a probe directly behind a definition inside a macro body sees the table before that definition
     ktext = "@macro show, 1, vv\n@db vv\n@endmacro\n@macro tt, 0\n@defn kk1, 1\nshow @isdef kk1\n@endmacro\ntt\n"
     kr = AsmResult(run_cases(harness, [asm_case("z80", text=ktext)], shards=1)[0])
